@@ -622,8 +622,10 @@ impl<Ctx: DemuxContext> Demultiplex<Ctx> {
         // TODO: simplify
         let mut itr = buf
             .chunks_exact(packet::Packet::SIZE)
-            .map(packet::Packet::try_new);
-        let mut pk = if let Some(Some(p)) = itr.next() {
+            // skip over any packet lacking a valid sync byte, rather than abandoning the
+            // remainder of the buffer,
+            .filter_map(packet::Packet::try_new);
+        let mut pk = if let Some(p) = itr.next() {
             p
         } else {
             return;
@@ -652,7 +654,7 @@ impl<Ctx: DemuxContext> Demultiplex<Ctx> {
                         break 'inner;
                     }
                 }
-                pk = if let Some(Some(p)) = itr.next() {
+                pk = if let Some(p) = itr.next() {
                     p
                 } else {
                     break 'outer;
@@ -665,7 +667,7 @@ impl<Ctx: DemuxContext> Demultiplex<Ctx> {
                 ctx.filter_changeset().apply(&mut self.processor_by_pid);
             }
             debug_assert!(ctx.filter_changeset().is_empty());
-            pk = if let Some(Some(p)) = itr.next() {
+            pk = if let Some(p) = itr.next() {
                 p
             } else {
                 break 'outer;
